@@ -58,7 +58,7 @@ def createTopic (d : DS) (t : String) : DS :=
   if (findRef d t "").isSome then d else
   let d1 := drainBag 8 (stepD d (.createTopic t))
   -- GetTopic: blocking query of the lookupds for channels to pre-create (only the real one keeps keys)
-  let pre := precreate [ (d.rKnown.filter (fun k => k.1 == t)).map (·.2) ]
+  let pre := precreate [ some ((d.rKnown.filter (fun k => k.1 == t)).map (·.2)) ]
   pre.foldl (fun acc c => createChan acc t c) d1
 
 def ticks (d : DS) : DS :=
@@ -128,8 +128,11 @@ def stepLine (d : DS) (line : String) : DS × String :=
           | .err => "err"
           | .panic => "panic")
     | _, _ => (d, "bad-op")
-  | ["precreate", a, b] =>
-    let pre := precreate [a.splitOn ",", b.splitOn ","]
+  | "precreate" :: answers =>
+    -- one word per queried lookupd: `fail`, `-` (answered, knows nothing) or a comma separated channel list
+    let parse (w : String) : Option (List String) :=
+      if w == "fail" then none else if w == "-" then some [] else some (w.splitOn ",")
+    let pre := precreate (answers.map parse)
     (d, showSet (pre.map (fun c => (c, ""))))
   | _ => (d, "bad-op")
 
